@@ -475,5 +475,241 @@ theorem served_exactly_once_within_half_step (c : Cfg K S σ) (hdt : 0 < c.dt) (
     refine ⟨m', by rw [ht]; exact hnear, ?_⟩
     intro hre; rw [he] at hre; exact absurd hre (by simp [Exit.reachedEnd])
 
+
+/-- **frame_count**: if the run reaches the end of the loop, the tracker has been called exactly
+`#{k | τ0 + k*D < t_final + eps*dt} = ⌈(t_final + eps*dt - τ0)/D⌉` times. -/
+theorem frame_count (c : Cfg K S σ) (hdt : 0 < c.dt) (he0 : 0 < c.eps)
+    (he1 : c.eps ≤ 1 / 2) (D τ0 : K) (hD : c.dt ≤ D) (C : σ → K → Prop) (hC : ConstLike c.nxt D C)
+    (u0 : S) (trs : List (Tracker K S σ)) (j : Nat) (tr0 : Tracker K S σ) (hj : trs[j]? = some tr0)
+    (hs : C tr0.sched τ0) (hdue : tr0.due = some τ0) (hτ : c.tStart - c.dt / 2 ≤ τ0) (fuel : Nat)
+    (h : (runFuel c u0 trs fuel).exit.reachedEnd) :
+    (callsOf j (runFuel c u0 trs fuel).trace).length =
+      (Int.ceil (((runFuel c u0 trs fuel).tFinal + c.eps * c.dt - τ0) / D)).toNat := by
+  obtain ⟨m, hnear, hiff⟩ := served_exactly_once_within_half_step c hdt he0 he1 D τ0 hD C hC u0 trs j
+    tr0 hj hs hdue hτ fuel
+  have hiff := hiff h
+  have hlen : (callsOf j (runFuel c u0 trs fuel).trace).length = m := by
+    have := hnear.length_eq; simpa using this.symm
+  have hD0 : 0 < D := lt_of_lt_of_le hdt hD
+  set X := (runFuel c u0 trs fuel).tFinal + c.eps * c.dt with hX
+  have h1 : Int.ceil ((X - τ0) / D) ≤ (m : Int) := by
+    rw [Int.ceil_le, div_le_iff₀ hD0]
+    have := (hiff m).not.mpr (lt_irrefl m)
+    push_cast; linarith [not_lt.mp this]
+  have h2 : (m : Int) ≤ max 0 (Int.ceil ((X - τ0) / D)) := by
+    rcases Nat.eq_zero_or_pos m with h0 | hpos
+    · subst h0; simp
+    · have := (hiff (m - 1)).mpr (by omega)
+      have hlt : ((m - 1 : Nat) : K) < (X - τ0) / D := by
+        rw [lt_div_iff₀ hD0]; linarith
+      have : ((m - 1 : Nat) : Int) < Int.ceil ((X - τ0) / D) := by
+        rw [Int.lt_ceil]; exact_mod_cast hlt
+      have : (m : Int) ≤ Int.ceil ((X - τ0) / D) := by omega
+      exact le_trans this (le_max_right _ _)
+  rw [hlen]
+  omega
+
+/-- **frame_count_floor**: on a range that is a whole number of steps, a tracker (e.g. a storage
+tracker) with interval `D ≥ dt` starting at `t_start` is called `⌊T/D⌋ + 1` times, provided no
+scheduled time falls into the sliver `(t_end, t_end + eps*dt)` - the final handle uses the
+stepper tolerance, so such a time is served at `t_end` as well. -/
+theorem frame_count_floor (c : Cfg K S σ) (hdt : 0 < c.dt) (he0 : 0 < c.eps)
+    (he1 : c.eps < 1 / 2) (N : Nat) (hN : c.tEnd - c.tStart = N * c.dt) (D : K) (hD : c.dt ≤ D)
+    (C : σ → K → Prop) (hC : ConstLike c.nxt D C)
+    (u0 : S) (trs : List (Tracker K S σ)) (j : Nat) (tr0 : Tracker K S σ) (hj : trs[j]? = some tr0)
+    (hs : C tr0.sched c.tStart) (hdue : tr0.due = some c.tStart) (fuel : Nat)
+    (h : (runFuel c u0 trs fuel).exit.reachedEnd)
+    (guard : ∀ k : Nat, ¬ (c.tEnd - c.tStart < k * D ∧ k * D < c.tEnd - c.tStart + c.eps * c.dt)) :
+    (callsOf j (runFuel c u0 trs fuel).trace).length =
+      (Int.floor ((c.tEnd - c.tStart) / D)).toNat + 1 := by
+  obtain ⟨m, hnear, hiff⟩ := served_exactly_once_within_half_step c hdt he0 he1.le D c.tStart hD C hC
+    u0 trs j tr0 hj hs hdue (by linarith) fuel
+  have hiff := hiff h
+  rw [run_tFinal_whole c hdt he0 he1 N hN u0 trs fuel h] at hiff
+  have hlen : (callsOf j (runFuel c u0 trs fuel).trace).length = m := by
+    have := hnear.length_eq; simpa using this.symm
+  have hD0 : 0 < D := lt_of_lt_of_le hdt hD
+  have hT0 : 0 ≤ c.tEnd - c.tStart := by rw [hN]; positivity
+  set T := c.tEnd - c.tStart with hT
+  have hf0 : 0 ≤ Int.floor (T / D) := Int.floor_nonneg.mpr (div_nonneg hT0 hD0.le)
+  obtain ⟨q, hq⟩ : ∃ q : Nat, (q : Int) = Int.floor (T / D) := ⟨(Int.floor (T / D)).toNat, by omega⟩
+  have hqK : (q : K) = (Int.floor (T / D) : K) := by
+    have := congrArg (fun z : Int => (z : K)) hq; simpa using this
+  have hq1 : (q : K) * D ≤ T := by
+    rw [hqK]; exact (le_div_iff₀ hD0).mp (Int.floor_le _)
+  have hq2 : T < ((q : K) + 1) * D := by
+    rw [hqK]; exact (div_lt_iff₀ hD0).mp (Int.lt_floor_add_one _)
+  have hpos := mul_pos he0 hdt
+  have g := guard (q + 1)
+  have hg : T + c.eps * c.dt ≤ ((q + 1 : Nat) : K) * D := by
+    by_contra hcon
+    exact g ⟨by push_cast; exact hq2, not_le.mp hcon⟩
+  have hlo : q < m := (hiff q).mp (by linarith)
+  have hhi : ¬ q + 1 < m := fun hlt => by
+    have := (hiff (q + 1)).mpr hlt
+    linarith
+  rw [hlen, ← hq]
+  simp only [Int.toNat_natCast]
+  omega
+
+/-- **frame_count_general**: on an arbitrary range `t_end ≥ t_start` every scheduled time before
+`t_end` is served, and no scheduled time at or beyond `t_end + (1 + eps)*dt` is: with the sliver
+guard at most one call more than `⌊T/D⌋ + 1`.  (A scheduled time exactly at `t_end` is missed
+only in the corner `t_final = t_end - eps*dt`, see `corner_scheduled_time_at_t_end_missed`.) -/
+theorem frame_count_general (c : Cfg K S σ) (hdt : 0 < c.dt) (he0 : 0 < c.eps)
+    (he1 : c.eps < 1 / 2) (hT : c.tStart ≤ c.tEnd) (D : K) (hD : c.dt ≤ D)
+    (C : σ → K → Prop) (hC : ConstLike c.nxt D C)
+    (u0 : S) (trs : List (Tracker K S σ)) (j : Nat) (tr0 : Tracker K S σ) (hj : trs[j]? = some tr0)
+    (hs : C tr0.sched c.tStart) (hdue : tr0.due = some c.tStart) (fuel : Nat)
+    (h : (runFuel c u0 trs fuel).exit.reachedEnd) :
+    (∀ k : Nat, c.tStart + k * D < c.tEnd → k < (callsOf j (runFuel c u0 trs fuel).trace).length) ∧
+    (∀ k : Nat, k < (callsOf j (runFuel c u0 trs fuel).trace).length →
+      c.tStart + k * D < c.tEnd + c.dt + c.eps * c.dt) ∧
+    (∀ q : Nat, c.tEnd - c.tStart + c.eps * c.dt ≤ ((q : K) + 1) * D →
+      (callsOf j (runFuel c u0 trs fuel).trace).length ≤ q + 2) := by
+  obtain ⟨m, hnear, hiff⟩ := served_exactly_once_within_half_step c hdt he0 he1.le D c.tStart hD C hC
+    u0 trs j tr0 hj hs hdue (by linarith) fuel
+  have hiff := hiff h
+  have hlen : (callsOf j (runFuel c u0 trs fuel).trace).length = m := by
+    have := hnear.length_eq; simpa using this.symm
+  -- where the run ends: t_end - eps*dt ≤ t_final < t_end + dt
+  have hsteps := run_steps_of_reachedEnd c hdt he1 u0 trs fuel h
+  have hl := run_tFinal_lattice c u0 trs fuel
+  set x := (c.tEnd - c.tStart) / c.dt - c.eps with hx
+  have hxdt : x * c.dt = c.tEnd - c.tStart - c.eps * c.dt := by rw [hx]; field_simp
+  have hcl : -1 < x := by
+    have : 0 ≤ (c.tEnd - c.tStart) / c.dt := div_nonneg (by linarith) hdt.le
+    rw [hx]; linarith
+  have hceil0 : 0 ≤ Int.ceil x := by
+    have : (-1 : Int) < Int.ceil x := by rw [Int.lt_ceil]; push_cast; exact hcl
+    omega
+  have hNK : ((finalStepCount c : Nat) : K) = (Int.ceil x : K) := by
+    have : ((finalStepCount c : Nat) : Int) = Int.ceil x := by unfold finalStepCount; rw [← hx]; omega
+    have := congrArg (fun z : Int => (z : K)) this
+    simpa using this
+  have h1 : x ≤ (Int.ceil x : K) := Int.le_ceil x
+  have h2 : (Int.ceil x : K) < x + 1 := Int.ceil_lt_add_one x
+  have lo : c.tEnd - c.eps * c.dt ≤ (runFuel c u0 trs fuel).tFinal := by
+    rw [hl, hsteps, hNK]; nlinarith
+  have hi : (runFuel c u0 trs fuel).tFinal < c.tEnd + c.dt := by
+    rw [hl, hsteps, hNK]; nlinarith
+  have hD0 : 0 < D := lt_of_lt_of_le hdt hD
+  refine ⟨?_, ?_, ?_⟩
+  · intro k hk; rw [hlen]; exact (hiff k).mp (by linarith)
+  · intro k hk; rw [hlen] at hk
+    have := (hiff k).mpr hk; linarith
+  · intro q hq
+    rw [hlen]
+    by_contra hcon
+    have : q + 2 < m := by omega
+    have := (hiff (q + 2)).mpr this
+    push_cast at this
+    nlinarith
+
+/-! ### what storage and data trackers record -/
+
+theorem handle_records (tr : Tracker K S σ) (t : K) (u : S) (hk : tr.kind ≠ .callback)
+    (hno : tr.stopAt tr.calls t u = none) :
+    (tr.handle t u).1.times = tr.times ++ [t] ∧ (tr.handle t u).1.frames = tr.frames ++ [u] := by
+  unfold Tracker.handle
+  rw [hno]
+  cases hkind : tr.kind with
+  | callback => exact absurd hkind hk
+  | storage => exact ⟨rfl, rfl⟩
+  | data => exact ⟨rfl, rfl⟩
+
+/-- invariant: the tracker at position `j` (a storage or data tracker that never raises) has
+recorded exactly its calls -/
+def RecInv (tr0 : Tracker K S σ) (j : Nat) (st : LState K S σ) : Prop :=
+  ∃ tr, st.trs[j]? = some tr ∧ tr.kind = tr0.kind ∧ tr.stopAt = tr0.stopAt ∧
+    tr.times = tr0.times ++ callsOf j st.trace ∧ tr.frames = tr0.frames ++ seenBy j st.trace
+
+theorem recInv_handle (nxt : σ → K → σ × Option K) (atol : K) (tr0 : Tracker K S σ)
+    (hk : tr0.kind ≠ .callback) (hro : tr0.ReadOnly) (j : Nat) (st : LState K S σ)
+    (h : RecInv tr0 j st) :
+    ∃ tr, (handleAll nxt atol st.t st.u 0 st.trs).1[j]? = some tr ∧ tr.kind = tr0.kind ∧
+      tr.stopAt = tr0.stopAt ∧
+      tr.times = tr0.times ++ callsOf j (st.trace ++ (handleAll nxt atol st.t st.u 0 st.trs).2.1) ∧
+      tr.frames = tr0.frames ++ seenBy j (st.trace ++ (handleAll nxt atol st.t st.u 0 st.trs).2.1) := by
+  obtain ⟨tr, hj, k1, k2, k3, k4⟩ := h
+  have hget := handleAll_getElem? nxt atol st.t st.u st.trs 0 j tr hj
+  have hcalls := handleAll_callsOf nxt atol st.t st.u st.trs j tr hj
+  have hseen := handleAll_seenBy nxt atol st.t st.u st.trs j tr hj
+  rw [callsOf_append, seenBy_append, hcalls, hseen]
+  by_cases hd : isDue tr.due atol st.t = true
+  · refine ⟨served nxt st.t st.u tr, by rw [hget, if_pos hd], ?_, ?_, ?_, ?_⟩
+    · have := handle_ident tr st.t st.u
+      have e : (tr.handle st.t st.u).1.kind = tr.kind := congrArg (fun p => p.1) this
+      exact e.trans k1
+    · have := handle_ident tr st.t st.u
+      have e : (tr.handle st.t st.u).1.stopAt = tr.stopAt := congrArg (fun p => p.2.1) this
+      exact e.trans k2
+    · have hno : tr.stopAt tr.calls st.t st.u = none := by rw [k2]; exact hro _ _ _
+      obtain ⟨r1, _⟩ := handle_records tr st.t st.u (by rw [k1]; exact hk) hno
+      show (tr.handle st.t st.u).1.times = _
+      rw [r1, k3, if_pos hd, List.append_assoc]
+    · have hno : tr.stopAt tr.calls st.t st.u = none := by rw [k2]; exact hro _ _ _
+      obtain ⟨_, r2⟩ := handle_records tr st.t st.u (by rw [k1]; exact hk) hno
+      show (tr.handle st.t st.u).1.frames = _
+      rw [r2, k4, if_pos hd, List.append_assoc]
+  · refine ⟨tr, by rw [hget, if_neg hd], k1, k2, ?_, ?_⟩
+    · rw [if_neg hd, List.append_nil]; exact k3
+    · rw [if_neg hd, List.append_nil]; exact k4
+
+theorem finalizeAll_getElem? (l : List (Tracker K S σ)) (j : Nat) (tr : Tracker K S σ)
+    (h : l[j]? = some tr) :
+    (finalizeAll l)[j]? = some { tr with finalized := tr.finalized + 1 } := by
+  unfold finalizeAll; rw [List.getElem?_map, h]; rfl
+
+/-- **recorded_frames_are_calls**: a `StorageTracker`/`MemoryStorage` or `DataTracker` at list
+position `j` that never raises ends the run having recorded exactly the times of its calls and
+the states shown to them, in order (appended to what it held before) - on every path. -/
+theorem recorded_frames_are_calls (c : Cfg K S σ) (u0 : S) (trs : List (Tracker K S σ)) (j : Nat)
+    (tr0 : Tracker K S σ) (hj : trs[j]? = some tr0) (hk : tr0.kind ≠ .callback) (hro : tr0.ReadOnly)
+    (fuel : Nat) :
+    ∃ tr, (runFuel c u0 trs fuel).trackers[j]? = some tr ∧
+      tr.times = tr0.times ++ callsOf j (runFuel c u0 trs fuel).trace ∧
+      tr.frames = tr0.frames ++ seenBy j (runFuel c u0 trs fuel).trace ∧
+      tr.finalized = tr0.finalized + 1 := by
+  have h0 : RecInv tr0 j (initState c u0 trs) ∧ ∃ tr, (initState c u0 trs).trs[j]? = some tr ∧ tr.finalized = tr0.finalized :=
+    ⟨⟨tr0, hj, rfl, rfl, by simp [initState, callsOf], by simp [initState, seenBy]⟩, tr0, hj, rfl⟩
+  -- the `finalized` counter is carried along with the identity invariant of `Head`
+  obtain ⟨st, ⟨hinv, hh⟩, _, _, _, sh⟩ := run_shape c
+    (fun st => RecInv tr0 j st ∧ Head c u0 trs st)
+    (fun st h _ _ => ⟨by
+        obtain ⟨tr, a, b, c', d, e⟩ := recInv_handle c.nxt (half * c.dt) tr0 hk hro j st h.1
+        exact ⟨tr, a, b, c', d, e⟩, head_advance c u0 trs st h.2⟩)
+    u0 trs fuel ⟨h0.1, head_init c u0 trs⟩
+  have hfinj : ∀ (l : List (Tracker K S σ)) (tr : Tracker K S σ), l.map Tracker.ident = trs.map Tracker.ident →
+      l[j]? = some tr → tr.finalized = tr0.finalized := by
+    intro l tr hl hlj
+    have h1 : (l.map Tracker.ident)[j]? = some tr.ident := by rw [List.getElem?_map, hlj]; rfl
+    have h2 : (trs.map Tracker.ident)[j]? = some tr0.ident := by rw [List.getElem?_map, hj]; rfl
+    rw [hl, h2] at h1
+    have := Option.some.inj h1
+    exact (congrArg (fun p => p.2.2) this).symm
+  rcases sh with ⟨_, ht, hk'⟩ | ⟨_, ht, hk', _⟩ | ⟨_, r, _, _, ht, hk'⟩
+  · obtain ⟨tr, a, _, _, d, e⟩ := hinv
+    refine ⟨_, by rw [hk']; exact finalizeAll_getElem? _ j tr a, by rw [ht]; exact d, by rw [ht]; exact e, ?_⟩
+    show tr.finalized + 1 = _
+    rw [hfinj st.trs tr hh.ident a]
+  · obtain ⟨tr, a, _, _, d, e⟩ := recInv_handle c.nxt (c.eps * c.dt) tr0 hk hro j st hinv
+    refine ⟨_, by rw [hk']; exact finalizeAll_getElem? _ j tr a, by rw [ht]; exact d, by rw [ht]; exact e, ?_⟩
+    show tr.finalized + 1 = _
+    rw [hfinj (finalH c st).1 tr (by unfold finalH; rw [handleAll_ident]; exact hh.ident) a]
+  · obtain ⟨tr, a, _, _, d, e⟩ := recInv_handle c.nxt (half * c.dt) tr0 hk hro j st hinv
+    refine ⟨_, by rw [hk']; exact finalizeAll_getElem? _ j tr a, by rw [ht]; exact d, by rw [ht]; exact e, ?_⟩
+    show tr.finalized + 1 = _
+    rw [hfinj (mainHandle c st).1 tr (by unfold mainHandle; rw [handleAll_ident]; exact hh.ident) a]
+
+/-! ### the concrete interrupt classes -/
+
+/-- `ConstantInterrupts(D)` of the model's schedule type is `ConstLike` -/
+theorem sched_constLike (D : K) :
+    ConstLike (Sched.next (K := K)) D (fun s tn => s = Sched.const D tn) := by
+  intro s tn t h
+  subst h
+  exact ⟨rfl, rfl⟩
+
 end
 end PdeVerif.Controller
